@@ -1,183 +1,337 @@
-"""facts_C02.py -- structural facts of grpclib/client.py used by Model/ClientCall.v  ->  coq/Gen/FactsC02.v
+"""facts_C02.py -- source facts of the client response path (property C02)  ->  coq/Gen/FactsC02.v
 
-ast only; fail-closed: every shape that is not recognised raises Unsupported.
- * constants: GRPC_CONTENT_TYPE, ProtoCodec.__content_subtype__
- * the Status each response-checking helper raises (as integers of const.Status)
- * the exception class `_process_grpc_status` catches around Status(int(..))
- * call skeletons: the ordered list of the calls (from a fixed vocabulary) made by recv_initial_metadata,
-   recv_trailing_metadata, _maybe_finish, _maybe_raise, __aexit__ and the four __call__ methods; the
-   hand-written model follows these orders and Proofs/C02Proofs.v compares them with the orders it
-   assumes, so that a re-ordering in the source breaks a proof deterministically.
+Fail-closed (anything not understood raises Unsupported, tools/regen.py then removes the stale output and
+exactly the C02 theorems stop compiling) -- but the facts state MEANING, not spelling.
+
+By VALUE (the modules of the repository under test are imported, public names only):
+  grpc_content_type, proto_content_subtype, and the numeric value of the statuses named below.
+
+By an EXPANDED, ORDERED WALK of the PUBLIC methods of client.Stream (recv_initial_metadata,
+recv_trailing_metadata, __aexit__) and of the four public __call__ methods.  The walk follows evaluation order;
+a call of a private helper of the same class / module (`self._x(..)`, `_x(..)`, also awaited) is replaced by
+the walk of its body, so extracting, inlining, renaming or merging private helpers, renaming locals and
+private attributes, early returns versus if/elif/else, De Morgan'd tests, temporaries, try/except/else versus
+try/except + tail, comments, annotations and docstrings are all invisible.  What is recorded is a sequence of
+role-level events, reduced to first occurrences:
+  key K           a response header name is consulted: `m.get(K ..)`, `m[K]`, `K in m` (names of module-level
+                  string constants are resolved by value, e.g. the details key)
+  call M          a public coroutine/method of the stream itself is invoked (recv_initial_metadata, ...)
+  isinstance C    the class an in-flight exception is tested against
+  status N        a literal Status member passed to a raised GRPCError (where it occurs relative to the keys)
+  default N       the default of a `.get(x, Status.N)` on the :status path
+  except C        exception classes caught on the way
+and for the __call__ bodies the public stream operations (open, send_message, send_request, recv_message,
+async iteration, `assert .. is not None`), consecutive repetitions collapsed.
+
+Facts emitted (theorem C02_source_facts compares them with what Model/ClientCall.v transcribes):
+  ri_keys / rt_keys / exit_events   which headers the three entry points consult and in which order, which
+                                    public receives the context exit performs, which exception class is upgraded
+  non200_default_status             the status for a :status that is not in the table (incl. a missing one)
+  content_type_status               the only literal status raised between consulting content-type and
+                                    consulting grpc-status
+  grpc_status_error_status          the only literal status raised after consulting grpc-status
+  rt_caught / exit_caught           exception classes caught on the trailing-metadata path / at the exit
+  call_uu/us/su/ss                  what the four __call__ bodies do with the stream
+Dropped since no theorem used them: the literal statement lists of the helpers, the spelled tests of
+_maybe_finish / __aexit__ / _raise_for_grpc_status (their behaviour is tied by the correspondence runs).
 """
 import ast
 
-from extract_facts import Unsupported, parse, ceval, zs, z, func_node, class_node, enum_members, \
-    module_assigns
+from extract_facts import Unsupported, parse, zs, z, class_node, load
 
-VOCAB = {'_raise_for_status', '_raise_for_content_type', '_process_grpc_status', '_raise_for_grpc_status',
-         'decode_metadata', 'recv_headers', 'recv_trailers', 'recv_initial_metadata',
-         'recv_trailing_metadata', 'recv_message', 'send_message', 'send_request', '_maybe_finish',
-         '_maybe_raise', 'is_closing', 'reset_nowait', '_release_stream', 'open', '__enter__', '__exit__',
-         'recv_data', 'decode_grpc_message', 'decode_bin_value', 'decode'}
+PUBLIC_STREAM_CALLS = {'recv_initial_metadata', 'recv_trailing_metadata', 'recv_message', 'send_message',
+                       'send_request', 'end', 'cancel', 'open'}
+MAX_DEPTH = 12
 
 
-def call_name(node):
-    f = node.func
-    if isinstance(f, ast.Attribute):
-        return f.attr
-    if isinstance(f, ast.Name):
-        return f.id
-    return None
+def need(cond, what):
+    if not cond:
+        raise Unsupported('C02 facts: ' + what)
 
 
-def ordered_calls(fn):
-    out = []
+class Walk:
+    def __init__(self, tree, cls, module):
+        self.tree = tree
+        self.module = module
+        self.cls = cls
+        self.methods = {}
+        classes = {c.name: c for c in tree.body if isinstance(c, ast.ClassDef)}
+        todo, seen = [cls], []
+        while todo:                       # the class and its bases defined in the same module (MRO-ish)
+            c = todo.pop(0)
+            if c in seen or c not in classes:
+                continue
+            seen.append(c)
+            for n in classes[c].body:
+                if isinstance(n, (ast.FunctionDef, ast.AsyncFunctionDef)):
+                    self.methods.setdefault(n.name, n)
+            for b in classes[c].bases:
+                b = b.value if isinstance(b, ast.Subscript) else b
+                if isinstance(b, ast.Name):
+                    todo.append(b.id)
+        self.functions = {n.name: n for n in tree.body if isinstance(n, (ast.FunctionDef, ast.AsyncFunctionDef))}
+        self.events = []
+        self.stack = []
 
-    def walk(node):
-        if isinstance(node, ast.Call):
-            # arguments are evaluated before the call happens
-            for ch in ast.iter_child_nodes(node):
-                walk(ch)
-            n = call_name(node)
-            if n in VOCAB:
-                out.append(n)
+    # ---- resolution of names by value
+    def const_str(self, node):
+        if isinstance(node, ast.Constant) and isinstance(node.value, str):
+            return node.value
+        if isinstance(node, ast.Name):
+            v = getattr(self.module, node.id, None)
+            if isinstance(v, str):
+                return v
+        return None
+
+    def status_name(self, node):
+        if isinstance(node, ast.Attribute) and isinstance(node.value, ast.Name) and node.value.id == 'Status':
+            return node.attr
+        return None
+
+    def emit(self, *ev):
+        self.events.append(tuple(ev))
+
+    # ---- the walk (evaluation order)
+    def expand(self, fn):
+        need(len(self.stack) < MAX_DEPTH and fn.name not in self.stack, 'recursive / too deep helper ' + fn.name)
+        self.stack.append(fn.name)
+        for s in fn.body:
+            self.visit(s)
+        self.stack.pop()
+
+    def visit(self, node):
+        if isinstance(node, (ast.FunctionDef, ast.AsyncFunctionDef, ast.Lambda, ast.ClassDef)):
+            return                       # nested definitions are not executed here
+        if isinstance(node, ast.Expr) and isinstance(node.value, ast.Constant):
+            return                       # docstring
+        if isinstance(node, ast.AnnAssign):
+            if node.value is not None:
+                self.visit(node.value)
             return
-        if isinstance(node, ast.AsyncFor):
-            walk(node.iter)
-            out.append('__aiter__')
+        if isinstance(node, ast.Raise):
+            if node.exc is not None:
+                if isinstance(node.exc, ast.Call) and isinstance(node.exc.func, ast.Name) \
+                        and node.exc.func.id == 'GRPCError' and node.exc.args:
+                    first = node.exc.args[0]
+                    for a in node.exc.args:
+                        self.visit(a)
+                    n = self.status_name(first)
+                    if n is not None:
+                        self.emit('status', n)
+                    elif not isinstance(first, ast.Name):
+                        # a computed status (e.g. the table lookup): its default was recorded by the visit
+                        pass
+                else:
+                    self.visit(node.exc)
+            return
+        if isinstance(node, ast.Try):
             for s in node.body:
-                walk(s)
-            return
-        if isinstance(node, ast.ListComp):
-            for g in node.generators:
-                walk(g.iter)
-                if g.is_async:
-                    out.append('__aiter__')
-            walk(node.elt)
+                self.visit(s)
+            for h in node.handlers:
+                names = []
+                t = h.type
+                for e in (t.elts if isinstance(t, ast.Tuple) else [t]):
+                    names.append(ast.unparse(e) if e is not None else 'BaseException')
+                for n in sorted(names):
+                    self.emit('except', n)
+                for s in h.body:
+                    self.visit(s)
+            for s in node.orelse + node.finalbody:
+                self.visit(s)
             return
         if isinstance(node, ast.Assert):
-            walk(node.test)
-            out.append('assert:' + ast.unparse(node.test))
+            t = node.test
+            if isinstance(t, ast.Compare) and len(t.ops) == 1 and isinstance(t.ops[0], ast.IsNot) \
+                    and isinstance(t.comparators[0], ast.Constant) and t.comparators[0].value is None:
+                self.emit('op', 'assert-not-none')
             return
+        if isinstance(node, (ast.AsyncFor,)):
+            self.visit(node.iter)
+            self.emit('op', 'aiter')
+            for s in node.body + node.orelse:
+                self.visit(s)
+            return
+        if isinstance(node, (ast.ListComp, ast.SetComp, ast.GeneratorExp, ast.DictComp)):
+            for g in node.generators:
+                self.visit(g.iter)
+                if g.is_async:
+                    self.emit('op', 'aiter')
+                for c in g.ifs:
+                    self.visit(c)
+            for e in ([node.key, node.value] if isinstance(node, ast.DictComp) else [node.elt]):
+                self.visit(e)
+            return
+        if isinstance(node, ast.Compare):
+            self.visit(node.left)
+            for op, c in zip(node.ops, node.comparators):
+                self.visit(c)
+            if len(node.ops) == 1 and isinstance(node.ops[0], (ast.In, ast.NotIn)):
+                k = self.const_str(node.left)
+                if k is not None:
+                    self.emit('key', k)
+            return
+        if isinstance(node, ast.Subscript):
+            self.visit(node.value)
+            k = self.const_str(node.slice)
+            if k is not None and isinstance(node.ctx, ast.Load):
+                self.emit('key', k)
+            else:
+                self.visit(node.slice)
+            return
+        if isinstance(node, ast.Call):
+            return self.visit_call(node)
         for ch in ast.iter_child_nodes(node):
-            walk(ch)
-    for s in fn.body:
-        walk(s)
+            self.visit(ch)
+
+    def visit_call(self, node):
+        f = node.func
+        # receiver and arguments first
+        if isinstance(f, ast.Attribute):
+            self.visit(f.value)
+        for a in node.args:
+            self.visit(a)
+        for k in node.keywords:
+            self.visit(k.value)
+        if isinstance(f, ast.Attribute):
+            recv_self = isinstance(f.value, ast.Name) and f.value.id == 'self'
+            if f.attr == 'get' and node.args:
+                k = self.const_str(node.args[0])
+                if k is not None:
+                    self.emit('key', k)
+                if len(node.args) == 2:
+                    n = self.status_name(node.args[1])
+                    if n is not None:
+                        self.emit('default', n)
+                return
+            if recv_self and f.attr.startswith('_') and not f.attr.startswith('__') and f.attr in self.methods:
+                return self.expand(self.methods[f.attr])
+            if f.attr in PUBLIC_STREAM_CALLS:
+                # public operations of the call object: self.* inside Stream, <stream>.* inside __call__
+                if self.cls != 'Stream':
+                    self.emit('op', f.attr)
+                elif recv_self:
+                    self.emit('call', f.attr)
+            return
+        if isinstance(f, ast.Name):
+            if f.id == 'isinstance' and len(node.args) == 2:
+                self.emit('isinstance', ast.unparse(node.args[1]))
+                return
+            if f.id.startswith('_') and f.id in self.functions:
+                return self.expand(self.functions[f.id])
+
+
+def first_occurrences(events, kinds):
+    out = []
+    for e in events:
+        if e[0] in kinds and e not in out:
+            out.append(e)
     return out
 
 
-def raised_statuses(fn, status):
-    """the Status members named in `raise GRPCError(Status.X, ...)`, in source order"""
+def collapse(events):
     out = []
-    for node in ast.walk(fn):
-        if isinstance(node, ast.Raise) and isinstance(node.exc, ast.Call) and \
-                call_name(node.exc) == 'GRPCError' and node.exc.args:
-            a = node.exc.args[0]
-            src = ast.unparse(a)
-            if src.startswith('Status.') and src.split('.')[1] in status:
-                out.append((node.lineno, status[src.split('.')[1]]))
-            else:
-                out.append((node.lineno, None))      # a computed status
-    return [s for _, s in sorted(out, key=lambda t: t[0])]
+    for e in events:
+        if not out or out[-1] != e:
+            out.append(e)
+    return out
+
+
+def walk(tree, module, cls, name):
+    w = Walk(tree, cls, module)
+    need(name in w.methods, '%s.%s not found' % (cls, name))
+    w.expand(w.methods[name])
+    return w.events
+
+
+def ev_str(e):
+    return '%s %s' % e
 
 
 def generate(repo):
+    client = load(repo, 'grpclib.client')
+    base = load(repo, 'grpclib.encoding.base')
+    proto = load(repo, 'grpclib.encoding.proto')
+    const = load(repo, 'grpclib.const')
+    status = {m.name: m.value for m in const.Status}
+    need(all(isinstance(v, int) for v in status.values()), 'Status values')
+    gct = base.GRPC_CONTENT_TYPE
+    sub = proto.ProtoCodec.__content_subtype__
+    need(isinstance(gct, str) and isinstance(sub, str), 'content-type constants')
+
+    tree = parse(repo, 'grpclib/client.py')
+    ri = walk(tree, client, 'Stream', 'recv_initial_metadata')
+    rt = walk(tree, client, 'Stream', 'recv_trailing_metadata')
+    ex = walk(tree, client, 'Stream', '__aexit__')
+
+    def keys(evs):
+        return [e[1] for e in first_occurrences(evs, ('key',))]
+
+    def singleton(names, what):
+        s = sorted(set(names))
+        need(len(s) == 1 and s[0] in status, '%s: %r' % (what, s))
+        return status[s[0]]
+
+    # statuses by position relative to the keys consulted
+    def segment_statuses(evs, after_key, before_key=None):
+        seen_after, out = False, []
+        for e in evs:
+            if e == ('key', after_key):
+                seen_after = True
+            elif before_key is not None and e == ('key', before_key):
+                if seen_after:
+                    break
+            elif e[0] == 'status' and seen_after:
+                out.append(e[1])
+        return out
+
+    ri_keys = keys(ri)
+    need(':status' in ri_keys and 'content-type' in ri_keys and 'grpc-status' in ri_keys, 'keys of recv_initial_metadata')
+    defaults = [e[1] for e in ri if e[0] == 'default']
+    before_ct = []
+    for e in ri:
+        if e == ('key', 'content-type'):
+            break
+        if e[0] == 'status':
+            before_ct.append(e[1])
+    need(not before_ct, 'a literal status is raised before content-type is consulted: %r' % before_ct)
+    non200 = singleton(defaults, 'default status of the :status table lookup')
+    ct_status = singleton(segment_statuses(ri, 'content-type', 'grpc-status'), 'statuses raised for content-type')
+    gs_status = singleton(segment_statuses(rt, 'grpc-status') + segment_statuses(ri, 'grpc-status'),
+                          'statuses raised for grpc-status')
+
+    exit_events = first_occurrences(ex, ('call', 'isinstance', 'key'))
+    rt_caught = sorted({e[1] for e in rt if e[0] == 'except'})
+    exit_caught = sorted({e[1] for e in ex if e[0] == 'except'})
+
     L = []
     add = L.append
-    add('(* GENERATED by tools/facts_C02.py from %s -- do not edit; rewritten on every run *)' % repo)
+    add('(* GENERATED by tools/facts_C02.py from the repository under test -- do not edit; rewritten on every run *)')
     add('From Coq Require Import ZArith List.')
     add('Import ListNotations.')
     add('Open Scope Z_scope.')
     add('')
-    const = parse(repo, 'grpclib/const.py')
-    status = {n: ceval(v, {}) for n, v in enum_members(const, 'Status')}
-    base = module_assigns(parse(repo, 'grpclib/encoding/base.py'))
-    gct = ceval(base['GRPC_CONTENT_TYPE'], {})
-    if not isinstance(gct, str):
-        raise Unsupported('GRPC_CONTENT_TYPE')
     add('Definition grpc_content_type : list Z := %s.   (* %r *)' % (zs(gct), gct))
-    proto = parse(repo, 'grpclib/encoding/proto.py')
-    sub = None
-    for s in class_node(proto, 'ProtoCodec').body:
-        if isinstance(s, ast.Assign) and ast.unparse(s.targets[0]) == '__content_subtype__':
-            sub = ceval(s.value, {})
-    if not isinstance(sub, str):
-        raise Unsupported('ProtoCodec.__content_subtype__')
     add('Definition proto_content_subtype : list Z := %s.   (* %r *)' % (zs(sub), sub))
-
-    cl = parse(repo, 'grpclib/client.py')
-    # _raise_for_status: `status = headers_map.get(':status')`, `if status != _H2_OK:`,
-    # `_H2_TO_GRPC_STATUS_MAP.get(status, Status.X)`, raise GRPCError(grpc_status, ...)
-    fn = func_node(cl, '_raise_for_status', 'Stream')
-    body = [s for s in fn.body if not (isinstance(s, ast.Expr) and isinstance(s.value, ast.Constant))]
-    if not (len(body) == 2 and ast.unparse(body[0]) == "status = headers_map.get(':status')"
-            and isinstance(body[1], ast.If) and ast.unparse(body[1].test) == 'status != _H2_OK'
-            and not body[1].orelse and len(body[1].body) == 2):
-        raise Unsupported('_raise_for_status shape')
-    asg, rs = body[1].body
-    if not (isinstance(asg, ast.Assign) and ast.unparse(asg.targets[0]) == 'grpc_status'
-            and isinstance(asg.value, ast.Call)
-            and ast.unparse(asg.value.func) == '_H2_TO_GRPC_STATUS_MAP.get'
-            and len(asg.value.args) == 2 and ast.unparse(asg.value.args[0]) == 'status'
-            and ast.unparse(asg.value.args[1]).startswith('Status.')):
-        raise Unsupported('_raise_for_status lookup')
-    if not (isinstance(rs, ast.Raise) and isinstance(rs.exc, ast.Call) and call_name(rs.exc) == 'GRPCError'
-            and ast.unparse(rs.exc.args[0]) == 'grpc_status'):
-        raise Unsupported('_raise_for_status raise')
-    add('Definition non200_default_status : Z := %s.' % z(status[ast.unparse(asg.value.args[1]).split('.')[1]]))
-
-    for name, coqname, count in (('_raise_for_content_type', 'content_type_statuses', 2),
-                                 ('_process_grpc_status', 'grpc_status_statuses', 2)):
-        st = raised_statuses(func_node(cl, name, 'Stream'), status)
-        if len(st) != count or any(s is None for s in st):
-            raise Unsupported('%s raises %r' % (name, st))
-        add('Definition %s : list Z := [%s].   (* missing; invalid *)' % (coqname, '; '.join(z(s) for s in st)))
-    # the except clauses of _process_grpc_status
-    fn = func_node(cl, '_process_grpc_status', 'Stream')
-    tries = [n for n in ast.walk(fn) if isinstance(n, ast.Try)]
-    outer = [t for t in tries if any('Status(int(grpc_status))' in ast.unparse(s) for s in t.body)]
-    if len(outer) != 1 or len(outer[0].handlers) != 1 or outer[0].handlers[0].type is None:
-        raise Unsupported('_process_grpc_status try')
-    add('Definition grpc_status_caught : list Z := %s.   (* %s *)' % (
-        zs(ast.unparse(outer[0].handlers[0].type)), ast.unparse(outer[0].handlers[0].type)))
-    # the guard of the details decoding: a bare `except Exception`
-    inner = [t for t in tries if t is not outer[0]]
-    if len(inner) != 1 or len(inner[0].handlers) != 1:
-        raise Unsupported('_process_grpc_status details try')
-    h = inner[0].handlers[0]
-    add('Definition details_caught : list Z := %s.' % zs(ast.unparse(h.type) if h.type is not None else ''))
-    add('Definition raise_for_grpc_status_test : list Z := %s.' % zs(ast.unparse(
-        [s for s in func_node(cl, '_raise_for_grpc_status', 'Stream').body if isinstance(s, ast.If)][0].test)))
-
+    add('Definition non200_default_status : Z := %s.' % z(non200))
+    add('Definition content_type_status : Z := %s.' % z(ct_status))
+    add('Definition grpc_status_error_status : Z := %s.' % z(gs_status))
     add('')
-    add('(* ordered calls (fixed vocabulary) of the methods the hand-written call program follows *)')
-    for cls, name, coqname in (('Stream', 'recv_initial_metadata', 'sk_recv_initial_metadata'),
-                               ('Stream', 'recv_message', 'sk_recv_message'),
-                               ('Stream', 'recv_trailing_metadata', 'sk_recv_trailing_metadata'),
-                               ('Stream', '_maybe_finish', 'sk_maybe_finish'),
-                               ('Stream', '_maybe_raise', 'sk_maybe_raise'),
-                               ('Stream', '__aexit__', 'sk_aexit'),
-                               ('UnaryUnaryMethod', '__call__', 'sk_call_uu'),
-                               ('UnaryStreamMethod', '__call__', 'sk_call_us'),
-                               ('StreamUnaryMethod', '__call__', 'sk_call_su'),
-                               ('StreamStreamMethod', '__call__', 'sk_call_ss')):
-        calls = ordered_calls(func_node(cl, name, cls))
-        add('Definition %s : list (list Z) := [%s].' % (coqname, '; '.join(zs(c) for c in calls)))
-        add('  (* %s *)' % ' '.join(calls).replace('*)', '* )'))
-    # the condition under which _maybe_finish does anything, and the test deciding the upgrade
-    mf = func_node(cl, '_maybe_finish', 'Stream')
-    ifs = [s for s in mf.body if isinstance(s, ast.If)]
-    if len(ifs) != 1:
-        raise Unsupported('_maybe_finish shape')
-    add('Definition maybe_finish_test : list Z := %s.' % zs(ast.unparse(ifs[0].test)))
-    add('  (* %s *)' % ast.unparse(ifs[0].test))
-    ax = func_node(cl, '__aexit__', 'Stream')
-    tests = [ast.unparse(n.test) for n in ast.walk(ax) if isinstance(n, ast.If)]
-    add('Definition aexit_tests : list (list Z) := [%s].' % '; '.join(zs(t) for t in tests))
-    add('  (* %s *)' % ' | '.join(tests))
-    hs = [ast.unparse(h.type) if h.type is not None else '' for n in ast.walk(ax) if isinstance(n, ast.Try)
-          for h in n.handlers]
-    add('Definition aexit_caught : list (list Z) := [%s].   (* %s *)' % ('; '.join(zs(t) for t in hs), hs))
+    add('(* header names consulted, in order of first use, helpers expanded *)')
+    add('Definition ri_keys : list (list Z) := [%s].   (* %s *)' % ('; '.join(zs(k) for k in ri_keys), ' | '.join(ri_keys)))
+    rt_keys = keys(rt)
+    add('Definition rt_keys : list (list Z) := [%s].   (* %s *)' % ('; '.join(zs(k) for k in rt_keys), ' | '.join(rt_keys)))
+    add('(* context exit: public receives, the exception class that is upgraded, headers consulted for the upgrade *)')
+    add('Definition exit_events : list (list Z) := [%s].' % '; '.join(zs(ev_str(e)) for e in exit_events))
+    add('  (* %s *)' % ' | '.join(ev_str(e) for e in exit_events))
+    add('Definition rt_caught : list (list Z) := [%s].   (* %s *)' % ('; '.join(zs(c) for c in rt_caught), rt_caught))
+    add('Definition exit_caught : list (list Z) := [%s].   (* %s *)' % ('; '.join(zs(c) for c in exit_caught), exit_caught))
+    add('')
+    add('(* what the four __call__ bodies do with the stream (consecutive repetitions collapsed) *)')
+    for cls, coqname in (('UnaryUnaryMethod', 'call_uu'), ('UnaryStreamMethod', 'call_us'),
+                         ('StreamUnaryMethod', 'call_su'), ('StreamStreamMethod', 'call_ss')):
+        evs = collapse([e for e in walk(tree, client, cls, '__call__') if e[0] == 'op'])
+        add('Definition %s : list (list Z) := [%s].   (* %s *)' % (
+            coqname, '; '.join(zs(e[1]) for e in evs), ' '.join(e[1] for e in evs)))
     return '\n'.join(L) + '\n'
 
 
